@@ -152,6 +152,8 @@ def check(run):
                                     d = dotted(x.func) or ''
                                     if d.startswith('threading.') or d in ('open', 'iter', 'filter', 'map', 'zip', 'Lock', 'RLock', 'Thread', 'compile'):
                                         bad = d
+                                    if d.startswith('weakref.') or d in ('ref', 'proxy', 'WeakValueDictionary', 'WeakKeyDictionary', 'WeakSet', 'WeakMethod'):
+                                        bad = d + ' (a weak reference is neither pickled nor deep-copied: the copy keeps pointing at the original object)'
                             run.check(bad is None, r, m.short, 'self.%s = %s' % (t.attr, q.unparse(node.value)[:40]), 'an unpicklable %s is stored on the object' % bad, node)
     run.floor(n, 40, r, 'field assignments in reachable classes')
     # closures / lambdas passed to constructors of reachable classes or to attach(): they end up stored on the interpreter
